@@ -306,6 +306,152 @@ theorem ipVersion_range (loc : String) (v : Nat) (h : ipVersion loc = some v) : 
 theorem ipVersion_no_scheme (loc : String) (h : afterScheme loc.toList = none) : ipVersion loc = none := by
   simp [ipVersion, h]
 
+/-! #### dotted quads -/
+
+theorem foldr_nosep (c : Char) (x a : List Char) (r : List (List Char)) (hx : ∀ y ∈ x, y ≠ c) :
+    x.foldr (splitStep c) (a :: r) = (x ++ a) :: r := by
+  induction x with
+  | nil => rfl
+  | cons y t ih =>
+    have hy : (y == c) = false := by rw [beq_eq_false_iff_ne]; exact hx y List.mem_cons_self
+    simp only [List.foldr_cons, List.cons_append]
+    rw [ih fun z hz => hx z (List.mem_cons_of_mem _ hz)]
+    simp [splitStep, hy]
+
+theorem splitOnC_nosep (c : Char) (x : List Char) (hx : ∀ y ∈ x, y ≠ c) : splitOnC c x = [x] := by
+  unfold splitOnC
+  rw [foldr_nosep c x [] [] hx]; simp
+
+theorem splitOnC_cons (c : Char) (l : List Char) : ∃ a r, splitOnC c l = a :: r := by
+  unfold splitOnC
+  induction l with
+  | nil => exact ⟨[], [], rfl⟩
+  | cons y t ih =>
+    obtain ⟨a, r, h⟩ := ih
+    simp only [List.foldr_cons, h]
+    by_cases hy : (y == c) = true
+    · exact ⟨[], a :: r, by simp [splitStep, hy]⟩
+    · exact ⟨y :: a, r, by simp [splitStep, hy]⟩
+
+theorem splitOnC_sep (c : Char) (x y : List Char) (hx : ∀ z ∈ x, z ≠ c) :
+    splitOnC c (x ++ c :: y) = x :: splitOnC c y := by
+  obtain ⟨a, r, h⟩ := splitOnC_cons c y
+  unfold splitOnC at h ⊢
+  rw [List.foldr_append, List.foldr_cons, h]
+  simp only [splitStep, beq_self_eq_true, if_true]
+  rw [foldr_nosep c x [] (a :: r) hx]; simp
+
+theorem dec_no (n : Nat) (ch : Char) (hc : isDigit ch = false) : ∀ y ∈ dec n, y ≠ ch := by
+  intro y hy e
+  have := (dec_digits n y hy).1
+  rw [e, hc] at this; cases this
+
+set_option maxRecDepth 100000 in
+theorem octetOk_dec : ∀ n, n < 256 → octetOk (dec n) = true := by decide
+
+/-- the dotted quad `a.b.c.d` -/
+def quad (a b c d : Nat) : List Char := dec a ++ '.' :: (dec b ++ '.' :: (dec c ++ '.' :: dec d))
+
+theorem isV4_quad (a b c d : Nat) (ha : a < 256) (hb : b < 256) (hc : c < 256) (hd : d < 256) :
+    isV4 (quad a b c d) = true := by
+  have hdot : isDigit '.' = false := by decide
+  unfold isV4 quad
+  rw [splitOnC_sep _ _ _ (dec_no a '.' hdot), splitOnC_sep _ _ _ (dec_no b '.' hdot),
+    splitOnC_sep _ _ _ (dec_no c '.' hdot), splitOnC_nosep _ _ (dec_no d '.' hdot)]
+  simp [octetOk_dec a ha, octetOk_dec b hb, octetOk_dec c hc, octetOk_dec d hd]
+
+theorem quad_no (a b c d : Nat) (ch : Char) (hc : isDigit ch = false) (hdot : ch ≠ '.') : ∀ y ∈ quad a b c d, y ≠ ch := by
+  intro y hy
+  unfold quad at hy
+  simp only [List.mem_append, List.mem_cons] at hy
+  rcases hy with h | rfl | h | rfl | h | rfl | h
+  · exact dec_no a ch hc y h
+  · exact fun e => hdot e.symm
+  · exact dec_no b ch hc y h
+  · exact fun e => hdot e.symm
+  · exact dec_no c ch hc y h
+  · exact fun e => hdot e.symm
+  · exact dec_no d ch hc y h
+
+/-- **ip_version_from_location on IPv4 URLs**: `http://a.b.c.d[:port][/path]` with octets `< 256` (any path) has
+    IP version 4 -/
+theorem ipVersion_v4 (a b c d : Nat) (ha : a < 256) (hb : b < 256) (hc : c < 256) (hd : d < 256)
+    (port : Option Nat) (path : Option (List Char)) :
+    ipVersion (String.ofList ("http://".toList ++ (quad a b c d ++
+      ((match port with
+        | some p => ':' :: dec p
+        | none => []) ++
+       (match path with
+        | some p => '/' :: p
+        | none => []))))) = some 4 := by
+  have hscheme : "http://".toList = ['h', 't', 't', 'p', ':', '/', '/'] := by decide
+  unfold ipVersion
+  simp only [String.toList_ofList, hscheme, List.cons_append, List.nil_append, afterScheme]
+  -- netloc
+  let tail : List Char := match port with
+    | some p => ':' :: dec p
+    | none => []
+  have htail : ∀ y ∈ tail, (!(y == '/' || y == '?' || y == '#')) = true ∧ y ≠ '@' := by
+    intro y hy
+    cases port with
+    | none => simp [tail] at hy
+    | some p =>
+      simp only [tail, List.mem_cons] at hy
+      rcases hy with rfl | hy
+      · exact ⟨by decide, by decide⟩
+      · have h1 := dec_no p '/' (by decide) y hy
+        have h2 := dec_no p '?' (by decide) y hy
+        have h3 := dec_no p '#' (by decide) y hy
+        have h4 := dec_no p '@' (by decide) y hy
+        exact ⟨by simp [h1, h2, h3], h4⟩
+  have hq : ∀ y ∈ quad a b c d, (!(y == '/' || y == '?' || y == '#')) = true ∧ y ≠ '@' ∧ y ≠ ':' := by
+    intro y hy
+    have h1 := quad_no a b c d '/' (by decide) (by decide) y hy
+    have h2 := quad_no a b c d '?' (by decide) (by decide) y hy
+    have h3 := quad_no a b c d '#' (by decide) (by decide) y hy
+    exact ⟨by simp [h1, h2, h3], quad_no a b c d '@' (by decide) (by decide) y hy,
+      quad_no a b c d ':' (by decide) (by decide) y hy⟩
+  have hnet : List.takeWhile (fun c => !(c == '/' || c == '?' || c == '#'))
+      (quad a b c d ++ (tail ++ (match path with
+        | some p => '/' :: p
+        | none => []))) = quad a b c d ++ tail := by
+    rw [← List.append_assoc, takeWhile_all_append _ (quad a b c d ++ tail)]
+    · cases path <;> simp
+    · intro y hy
+      rcases List.mem_append.mp hy with h | h
+      · exact (hq y h).1
+      · exact (htail y h).1
+  show (match afterLastAt (List.takeWhile _ (quad a b c d ++ (tail ++ _))) with
+    | '[' :: r6 => _
+    | _ => _) = some 4
+  rw [hnet]
+  have hat : afterLastAt (quad a b c d ++ tail) = quad a b c d ++ tail := by
+    unfold afterLastAt
+    rw [splitOnC_nosep '@' _ (by
+      intro y hy
+      rcases List.mem_append.mp hy with h | h
+      · exact (hq y h).2.1
+      · exact (htail y h).2)]
+    rfl
+  rw [hat]
+  have hhost : List.takeWhile (fun x => x != ':') (quad a b c d ++ tail) = quad a b c d := by
+    rw [takeWhile_all_append _ (quad a b c d) tail (fun y hy => by simpa using (hq y hy).2.2)]
+    cases port <;> simp [tail]
+  -- the host does not start with '['
+  obtain ⟨h0, t0, hh0⟩ : ∃ h0 t0, dec a = h0 :: t0 := by
+    cases hda : dec a with
+    | nil => exact absurd hda (dec_ne_nil a)
+    | cons h0 t0 => exact ⟨h0, t0, rfl⟩
+  have hbr : h0 ≠ '[' := dec_no a '[' (by decide) h0 (by rw [hh0]; exact List.mem_cons_self)
+  have hform : quad a b c d ++ tail = h0 :: (t0 ++ '.' :: (dec b ++ '.' :: (dec c ++ '.' :: dec d)) ++ tail) := by
+    simp [quad, hh0]
+  split
+  · rename_i r6 heq
+    rw [hform] at heq
+    simp only [List.cons.injEq] at heq
+    exact absurd heq.1 hbr
+  · simp only [hhost, isV4_quad a b c d ha hb hc hd, if_true]
+
 /-- sanity pins for the URL grammar of the generator (samples, not a universal claim) -/
 example : ipVersion "http://192.168.1.10:80/desc.xml" = some 4 ∧ ipVersion "http://[2001:db8::10]:80/desc.xml" = some 6 ∧
     ipVersion "http://[fe80::1%3]:80/desc.xml" = some 6 ∧ ipVersion "https://tv.example:443/d" = none ∧
